@@ -1919,6 +1919,9 @@ func (c *Cache) additionalAnswer(ctx context.Context, msg *dns.Msg) *dns.Msg {
 				return dnsutil.SetRcode(msg, dns.RcodeServerFailure, false)
 			}
 			cnameReq.SetQuestion(cr.Target, q.Qtype)
+			// SetQuestion always asks in class IN; the chase must stay in the
+			// class the client asked in, or an IN answer is spliced into it.
+			cnameReq.Question[0].Qclass = q.Qclass
 		}
 	}
 
